@@ -407,6 +407,13 @@ pub fn run(ctx: &Ctx) -> i32 {
         let toml_arg = if toml_in_subdir { "conf/cfg.toml" } else { "cfg.toml" };
         std::fs::create_dir_all(format!("{}/conf", cwd)).unwrap();
         let toml_path = if toml_in_subdir && toml_path.starts_with("./") && rng.chance(1, 2) { format!("{}/tdir", cwd) } else { toml_path };
+        // with --path given the toml's own path entry is irrelevant, even if it names nothing that exists
+        let toml_path = if combo & 1 != 0 && rng.chance(1, 3) {
+            acc.cov("precedence:toml-path-does-not-exist-but---path-given");
+            "./no-such-directory".to_string()
+        } else {
+            toml_path
+        };
         std::fs::write(format!("{}/{}", cwd, toml_arg), toml_text(Some(&toml_path), &all_o, &all_v, &all_q)).unwrap();
         let mut args: Vec<&str> = vec![];
         // spellings of the --path argument; when ./contracts exists the argument may also name exactly that directory
